@@ -314,6 +314,11 @@ impl ZReorderMap {
 
         // Sequence: read var_uint for length
         self.seq_length = self.read_var_uint()?;
+        if self.seq_length == 0 {
+            return Err(ZiporaError::invalid_data(
+                "ZReorderMap: zero-length sequence"
+            ));
+        }
 
         // Validate position after var_uint read
         if self.pos > self.mmap.len() {
